@@ -354,7 +354,7 @@ def d8(ctx, rid):
             continue
         n += 1
         key = 'stamped-offset-is-reserved-offset|%s' % d
-        carry = core.flows_forward(f, 2)
+        carry = core.flows_forward(f, 2, transparent=lambda x: tuple(range(len(x.args))))     # through helpers that build the record
         into_calls = [c for c in f.calls if c.bb in f.reachable() and any(op_local(a) in carry for a in c.args)]
         if 0 in carry and into_calls:
             ctx.ok(rid, key, f.where(), 'the offset parameter reaches the result and `%s`' % into_calls[0].name)
